@@ -2,6 +2,7 @@
    Model: Store/CertStore.v (hand-written mirror of certstore/certstore.go over an abstract datastore). *)
 From Coq Require Import ZArith List Bool.
 From F3 Require Import GoInt ListX Table Validate CertStore StoreProofs.
+From F3 Require Subscribers SubscribersProofs.
 Import ListNotations.
 Open Scope Z_scope.
 
@@ -59,6 +60,25 @@ Theorem c09_create_inv : forall toks freq d first pt, fresh d -> 0 < freq -> 0 <
 Proof. exact create_inv. Qed.
 Print Assumptions c09_create_inv.
 
-Theorem c09_subscriber_never_blocks : forall (buf : chan) c, snd (notify buf c) = false /\ fst (notify buf c) = Some c.
-Proof. exact subscriber_never_blocks. Qed.
-Print Assumptions c09_subscriber_never_blocks.
+(* subscribers (Store/Subscribers.v: one-slot channels, Subscribe pre-loads the latest certificate, an accepted Put drains
+   and then sends under the write lock): for EVERY sequence of subscriptions, accepted puts, reads by any subscriber at
+   any time, closes and re-opens, no send ever blocks the writer, and every live subscriber has the latest certificate
+   pending or has already taken it *)
+Theorem c09_writers_never_blocked : forall latest evs,
+  Subscribers.ss_blocked (fst (Subscribers.srun (Subscribers.ss0 latest) evs)) = false.
+Proof. exact SubscribersProofs.writers_never_blocked. Qed.
+Print Assumptions c09_writers_never_blocked.
+Theorem c09_subscriber_observes_latest : forall latest evs k x,
+  let st := fst (Subscribers.srun (Subscribers.ss0 latest) evs) in
+  nth k (Subscribers.ss_subs st) None = Some x ->
+  match Subscribers.sb_slot x with
+  | Some c => Subscribers.ss_latest st = Some c
+  | None => Subscribers.sb_seen x = Subscribers.ss_latest st end.
+Proof. exact SubscribersProofs.subscriber_observes_latest. Qed.
+Print Assumptions c09_subscriber_observes_latest.
+Theorem c09_next_read_is_latest : forall latest evs k x got,
+  let st := fst (Subscribers.srun (Subscribers.ss0 latest) evs) in
+  nth k (Subscribers.ss_subs st) None = Some x -> snd (Subscribers.sstep st (Subscribers.SRead k got)) = true ->
+  (got = -1 /\ Subscribers.sb_seen x = Subscribers.ss_latest st) \/ Subscribers.ss_latest st = Some got.
+Proof. exact SubscribersProofs.next_read_is_latest. Qed.
+Print Assumptions c09_next_read_is_latest.
